@@ -1,7 +1,7 @@
 (* MsgRoundTrip.v — a printed message parses back to the message (C04): the
    header line, the item, the terminator; token level here, characters below. *)
 From Secs Require Import Ast FloatProofs Fill Utf8 Msg WireSpec WireLemmas WireValues HeaderProofs WireEnc WireDec MsgProofs AstProofs FillProofs FillCompose PrintProofs.
-From Secs Require Import Lexer Parser SmlNumbers SmlProofs LexProofs ParseProofs LayoutProofs OffsetProofs TokenProofs LexPrinted.
+From Secs Require Import Lexer Parser SmlNumbers SmlProofs LexProofs ParseProofs LayoutProofs OffsetProofs TokenProofs AsciiTokens TokenTrees LexPrinted AsciiLex LexTrees.
 Open Scope Z_scope.
 
 Definition sf_text (m : msg) : bytes := [x53] ++ fmt_int (m_stream m) ++ [x46] ++ fmt_int (m_function m).
@@ -288,6 +288,8 @@ Proof.
       :: flat_map (child_pieces 0) zs ++ [PT (indent 0 ++ [x3e])]) by (subst zs; reflexivity).
     rewrite E, render_cons. cbn [indent app]. eexists. reflexivity.
   - destruct Hp as (Hk & _). rewrite (print_leaf_text fl 0 k w ys Hk). unfold leaf_text. destruct ys; cbn [app]; eexists; reflexivity.
+  - destruct s; eexists; reflexivity.
+  - eexists. reflexivity.
 Qed.
 
 Definition after_end_ok (r : bytes) : Prop :=
@@ -315,10 +317,10 @@ Proof.
       all: rewrite <- app_assoc; cbn [app].
       all: match goal with |- context [item_tokens ?it] =>
              destruct (lexes_item alnum fl it Hp Hl 0%nat (x0a :: x2e :: r) o) as [t1 [L1 Z1]];
-             destruct (item_text_starts it 0 Hp eq_refl) as [s Es] end.
+             destruct (item_text_starts it 0 Hp eq_refl) as [s0 Es] end.
       all: unfold print_item; rewrite Es in *; cbn [app] in L1 |- *.
       all: assert (Hne1 : t1 <> []) by (intro E; subst t1; cbn [map] in Z1; discriminate Z1).
-      all: exists (t1 ++ [] ++ [mk TMsgEnd [x2e] (o + zlen (x3c :: s) + 1)]); split;
+      all: exists (t1 ++ [] ++ [mk TMsgEnd [x2e] (o + zlen (x3c :: s0) + 1)]); split;
            [eapply lexes_trans; [apply lexes_from_header; [exact Hne1|exact L1]|];
             eapply lexes_trans; [apply lexes_skip; apply step_blank; reflexivity|];
             match goal with |- lexes _ _ _ ?a _ _ _ ?b => replace b with (a + 1) end;
@@ -425,6 +427,13 @@ Proof.
   - unfold item_tokens, leaf_tokens. cbn [app]. constructor; [reflexivity|]. constructor; [reflexivity|]. constructor; [reflexivity|].
     apply Forall_app. split; [|repeat constructor].
     induction ys as [|y ys IHy]; [constructor|]. cbn [map]. constructor; [destruct y as [v|n]; [destruct k|]; reflexivity|exact IHy].
+  - unfold item_tokens, ascii_tokens. cbn [app]. constructor; [reflexivity|]. constructor; [reflexivity|].
+    apply Forall_app. split; [destruct v; repeat constructor|].
+    apply Forall_app. split; [|repeat constructor].
+    eapply Forall_impl; [|apply atoks_values]. intros t H. cbv beta in H. unfold typ_is. destruct (t_typ t); try contradiction; reflexivity.
+  - unfold item_tokens, ascii_var_tokens, ascii_var_size_tokens. cbn [app]. constructor; [reflexivity|]. constructor; [reflexivity|].
+    apply Forall_app. split; [|repeat constructor].
+    destruct ((mn =? 0) && (mx =? -1)); [constructor|]. destruct (mn =? mx); [repeat constructor|]. destruct (mx =? -1); repeat constructor.
 Qed.
 
 Lemma msg_tokens_no_comment m : Forall (fun k => typ_is k TComment = false) (msg_tokens m).
@@ -476,7 +485,8 @@ Qed.
 (* premises are satisfiable: two messages, one with a nested item, one header-only *)
 Example print_parse_example :
   let m1 := {| m_name := B"Report"%string; m_stream := 6; m_function := 11; m_wbit := 1; m_dir := B"H<-E"%string;
-               m_item := IList [ILeaf KUint 4 [SX (B"dataid"%string); SV 7]; IVar (B"v"%string); IList [ILeaf KBin 1 [SV 255]; ILeaf KBool 1 [SV 1]]];
+               m_item := IList [ILeaf KUint 4 [SX (B"dataid"%string); SV 7]; IVar (B"v"%string);
+                                IList [ILeaf KBin 1 [SV 255]; ILeaf KBool 1 [SV 1]; IAscii (B"say " ++ [x22] ++ B"hi" ++ [x22; x0a])%string; IAsciiVar (B"txt"%string) 1 10; IAscii []]];
                m_sid := -1; m_sys := [x00; x00; x00; x00] |} in
   let m2 := {| m_name := []; m_stream := 1; m_function := 2; m_wbit := 0; m_dir := B"H<->E"%string;
                m_item := IEmpty; m_sid := -1; m_sys := [x00; x00; x00; x00] |} in
